@@ -24,9 +24,11 @@ class Crash(BaseException):
     """Raised by the environment at the crash point (BaseException: the code under test must not swallow it)."""
 
 
-def make_world(target, prefix_len=2, hash_type='sha256', parent=None, name='c'):
+def make_world(target, prefix_len=2, hash_type='sha256', parent=None, name='c', config_file=False):
+    """config_file: write a real config.json into the model container (only with a CONCRETE configuration: serialising a
+    symbolic pack target would make CrossHair enumerate its values)"""
     if MODE == 'model':
-        return ModelWorld(target, prefix_len, hash_type, parent, name)
+        return ModelWorld(target, prefix_len, hash_type, parent, name, config_file)
     return RealWorld(target, prefix_len, hash_type, parent, name)
 
 
@@ -89,7 +91,7 @@ class ModelImage:
 class ModelWorld:
     kind = 'model'
 
-    def __init__(self, target, prefix_len, hash_type, parent=None, name='c'):
+    def __init__(self, target, prefix_len, hash_type, parent=None, name='c', config_file=False):
         from . import menv
 
         self.menv = menv
@@ -126,7 +128,7 @@ class ModelWorld:
         # a real config file when the configuration is concrete (a copy of the container -- a backup -- can be opened)
         import json
 
-        fs.files[self.root + '/config.json'] = menv.Node(text=json.dumps(self.config) if type(target) is int else '{}')
+        fs.files[self.root + '/config.json'] = menv.Node(text=json.dumps(self.config) if config_file else '{}')
         self.c = self.new_handle()
         self.box = []
 
